@@ -52,6 +52,7 @@ VALUE_RULES = {
     "C18.e": "written vs restored expression per key",
     "C19.b": "shared C02.a / C02.b",
     "C19.c": "folded corner / centre tables",
+    "C07.c": "corner tables folded per dimension",
     "C08.a": "string vocabularies: accepted set vs literals compared / documented",
     "C14.a": "parameter routing folded per class and dofs (raised exception, update keywords, offsets)",
     "C14.f": "exponent sets of the polynomial basis, folded per degree",
